@@ -859,7 +859,8 @@ def run_backend(drv, case) -> Outcome:
         state_times = None if dflt == "Full" else sorted(all_times)
         state_obs = do.StateResult(evaluation_times=state_times, tag_suffix="ref")
         noise = case.get("noise")
-        kwargs = dict(observables=[state_obs] + obs_objs)
+        rate = float(case.get("rate", 1.0))
+        kwargs = dict(observables=[state_obs] + obs_objs, sampling_rate=rate)
         if not omit_default:
             kwargs["default_evaluation_times"] = dflt_arg
         if noise:
@@ -900,6 +901,23 @@ def run_backend(drv, case) -> Outcome:
         state_ts = res.get_result_times(state_obs)
         out.detail = dict(T=T, eigenstates=eig, solver_times=solver_times[:12], stored={})
         stored_state = getattr(res, state_obs.tag)[-1]
+        # pre-condition of every "observable = definition on the state" clause: the state handed to the
+        # observables is a physical state (unit norm / unit trace, Hermitian, positive)
+        for t_st, qs in zip(res.get_result_times(state_obs), getattr(res, state_obs.tag)):
+            q = qs.to_qobj()
+            out.evaluations += 1
+            if q.isket:
+                bad_state = abs(q.norm() - 1) > 2e-5
+                descr = f"norm {q.norm():.6f}"
+            else:
+                m = q.full()
+                ev = np.linalg.eigvalsh((m + m.conj().T) / 2)
+                bad_state = abs(np.trace(m) - 1) > 2e-5 or np.max(np.abs(m - m.conj().T)) > 1e-8 or ev.min() < -1e-6
+                descr = f"trace {np.trace(m).real:.6f}, min eigenvalue {ev.min():.2g}"
+            if bad_state:
+                out.fail("state-physical", f"the state the observables are evaluated on at t={t_st} is not a physical "
+                                           f"state: {descr} (noise {noise})", noise="+".join(sorted(noise or {})) or "none")
+                break
         out.evaluations += 1
         if tuple(stored_state.eigenstates) != tuple(eig):
             out.fail("state-eigenbasis", f"stored states are labelled {stored_state.eigenstates}, the channels used "
@@ -907,6 +925,8 @@ def run_backend(drv, case) -> Outcome:
         for o_spec, o in zip(case["obs"], obs_objs):
             stored_ts = [float(x) for x in res.get_result_times(o)] if o.uuid in res._results else []
             out.detail["stored"][o.tag] = stored_ts
+            if o_spec.get("times") is None and dflt == "Full" and rate != 1.0:
+                continue        # the sampled grid at rate < 1 is C11's subject (legacy_eval_times)
             want = solver_times if (o_spec.get("times") is None and dflt == "Full") else \
                 (dflt_arg if o_spec.get("times") is None else [float(x) for x in o_spec["times"]])
             out.evaluations += 1
@@ -960,7 +980,7 @@ def run_backend(drv, case) -> Outcome:
 
 def gen_backend(rng) -> dict:
     label = rng.choice(["gr1", "gr2", "gr2", "three-level", "three-level-noise", "two-default-times", "full",
-                        "dephasing"])
+                        "dephasing", "state-prep", "state-prep"])
     dur = rng.choice([100, 100, 200, 300, 120, 64])
     amp = rng.choice([3.0, 6.283185307179586, 9.0])
     det = rng.choice([0.0, 0.0, -4.0, 5.0])
@@ -976,6 +996,12 @@ def gen_backend(rng) -> dict:
                                 dict(runs=3, samples_per_run=1, amp_sigma=0.1, laser_waist=100.0)])
     if label == "dephasing":
         noise = dict(dephasing_rate=0.5)
+    if label == "state-prep":
+        # state preparation errors as the only stochastic noise: identical configurations are grouped and
+        # weighted by their repetitions when the runs are averaged
+        noise = dict(runs=rng.choice([6, 8, 12]), samples_per_run=1, state_prep_error=rng.choice([0.2, 0.5]))
+        if rng.random() < 0.4:
+            noise["dephasing_rate"] = 0.5
     grid = [0.0, 0.1, 0.25, 0.3, 0.5, 0.7, 0.75, 0.9, 1.0]
     dflt = "Full" if label == "full" else sorted(rng.sample(grid, 2)) if label == "two-default-times" else \
         rng.choice([[1.0], [1.0], [0.5], "default"])
@@ -986,8 +1012,15 @@ def gen_backend(rng) -> dict:
         if label.startswith("three-level") and t in ("occupation", "correlation_matrix", "bitstrings"):
             o["one"] = rng.choice(["r", "h"])
         obs.append(o)
-    return dict(kind="backend", label=label, seq=dict(n=n, spacing=rng.choice([7.0, 10.0]), segments=segs),
+    case = dict(kind="backend", label=label, seq=dict(n=n, spacing=rng.choice([7.0, 10.0]), segments=segs),
                 obs=obs, dflt=dflt, noise=noise, npseed=rng.randint(0, 10**6))
+    if label == "full" and rng.random() < 0.6:
+        # coarser sampling: the times an observable asks for lie between the sampled steps
+        case["rate"] = rng.choice([0.5, 0.2])
+        for o in obs:
+            if o["times"] is None:
+                o["times"] = sorted(rng.sample(grid, rng.randint(1, 2)))
+    return case
 
 
 def shrink_backend(case):
